@@ -703,13 +703,22 @@ func (h *ipamHist) initialRecord() {
 	_ = h.cl.Get(context.Background(), client.ObjectKey{Name: "node-1"}, cr)
 	cr.Status.NetworkInterfaces = map[string]*v1beta1.NetworkInterface{}
 	nEni := 1 + h.rng.Intn(min(cfg.Adapters-1, 3))
+	if cfg.Initial == "surplus-trunk" {
+		// every slot is taken and two of the interfaces are trunks (a trunk created twice: the record of the first
+		// was lost with a failed status write and a controller restart)
+		nEni = cfg.Adapters - 1
+	}
 	podIdx := 0
 	for k := 0; k < nEni; k++ {
 		var e *cloudsim.CENI
+		ctype, rtype := "Secondary", v1beta1.ENITypeSecondary
+		if cfg.Initial == "surplus-trunk" && k < 2 {
+			ctype, rtype = "Trunk", v1beta1.ENITypeTrunk
+		}
 		h.cloud.Mutate(func(c *cloudsim.CtrlCloud) {
-			e = c.InjectENI(&cloudsim.CENI{Type: "Secondary", TrafficMode: "Standard", Status: "InUse", InstanceID: "i-1", VSW: "vsw-1", Tags: map[string]string{"creator": "terway"}})
+			e = c.InjectENI(&cloudsim.CENI{Type: ctype, TrafficMode: "Standard", Status: "InUse", InstanceID: "i-1", VSW: "vsw-1", Tags: map[string]string{"creator": "terway"}})
 		})
-		ni := &v1beta1.NetworkInterface{ID: e.ID, Status: "InUse", MacAddress: e.MAC, VSwitchID: "vsw-1", PrimaryIPAddress: e.Primary, NetworkInterfaceType: v1beta1.ENITypeSecondary,
+		ni := &v1beta1.NetworkInterface{ID: e.ID, Status: "InUse", MacAddress: e.MAC, VSwitchID: "vsw-1", PrimaryIPAddress: e.Primary, NetworkInterfaceType: rtype,
 			NetworkInterfaceTrafficMode: v1beta1.NetworkInterfaceTrafficModeStandard, IPv4: map[string]*v1beta1.IP{}, IPv6: map[string]*v1beta1.IP{}, IPv4CIDR: "10.1.0.0/16", IPv6CIDR: "fd00:1::/64"}
 		n := 1 + h.rng.Intn(cfg.V4Per)
 		h.cloud.Mutate(func(c *cloudsim.CtrlCloud) {
@@ -865,7 +874,7 @@ func (h *ipamHist) reconcile() (reconcile.Result, error) {
 	if os.Getenv("VERIF_ONLY_HISTORY") != "" {
 		sn := h.cloud.Snapshot()
 		for id, e := range sn.ENIs {
-			fmt.Printf("CLOUD %s st=%s del=%v v4=%v v6=%v\n", id, e.Status, e.Deleted, e.V4, e.V6)
+			fmt.Printf("CLOUD %s type=%s/%s st=%s del=%v v4=%v v6=%v\n", id, e.Type, e.TrafficMode, e.Status, e.Deleted, e.V4, e.V6)
 		}
 	}
 	var res reconcile.Result
